@@ -3,6 +3,8 @@ package main
 import (
 	"fmt"
 	"os"
+
+	"golang.org/x/tools/go/ssa"
 )
 
 func main() {
@@ -23,6 +25,31 @@ func main() {
 			os.Exit(2)
 		}
 		fn.WriteTo(os.Stdout)
+	case "ws":
+		// debugging aid: tvc ws <pkg> <func> — syntactic write set and which heaps are only written through local objects
+		p, err := loadProgram([]string{os.Args[2]})
+		if err != nil {
+			fmt.Fprintln(os.Stderr, err)
+			os.Exit(2)
+		}
+		fn := p.lookupFunc(p.Targets[0], os.Args[3])
+		if fn == nil {
+			fmt.Fprintln(os.Stderr, "no such function")
+			os.Exit(2)
+		}
+		specs := newSpecDB()
+		for path := range p.All {
+			if len(path) >= len(repoModule) && path[:len(repoModule)] == repoModule {
+				specs.loadSpecsForPackage(p.RepoDir, path)
+			}
+		}
+		eng := newEngine(p, specs)
+		x := &FnExec{eng: eng, q: newQ(ModeInt), top: fn, ordinals: map[string]int{}, trusted: map[string]bool{}}
+		ws := map[string]bool{}
+		x.writeSetFn(fn, ws, map[*ssa.Function]bool{})
+		for h := range ws {
+			fmt.Printf("%-60s localOnly=%v\n", h, x.fnWritesOnlyLocal(fn, h, map[*ssa.Function]bool{}))
+		}
 	default:
 		os.Exit(cmdMain(os.Args[1:]))
 	}
